@@ -262,6 +262,6 @@ def cases(tier):
             Case("SoCRegion.decoder", c_decoders, tier)]
 
 ASSUMPTIONS = ["Python semantics assumed by the E3 encoding: ints are mathematical; dict iteration is insertion order; logging/colorer/str.format have no effect on results; no aliasing between the symbolic records handed in",
-               "SoCRegion.size_pow2 >= size is assumed in add_region's proof (the constructor's own relation is checked by the bounded obligation)",
-               "alloc_region, SoCRegion.size_pow2 and the platform ConstraintManager are bounded stand-ins (exhaustive small scope), labelled bounded and not counted as proved",
+               "SoCRegion.size_pow2 >= size is assumed in add_region's proof; the constructor's own relation is proved in C13_alloc_proofs.py (SoCRegion.__init__(proof))",
+               "the bounded enumerations of alloc_region, SoCRegion.size_pow2 and ConstraintManager are kept as cross-checks (labelled bounded, not counted as proved) beside the all-input proofs in C13_alloc_proofs.py",
                "linker regions are exempt from the overlap check by design of check_regions_overlap (check_linker=False); not listed as a finding"]
